@@ -437,20 +437,25 @@ class RepeatMin(Expression):
 
         start_pos = gen.new_temp("start")
         tmp_pairs = gen.new_temp("children")
+        item_pairs = gen.new_temp("item_children")
         count_var = gen.new_temp("count")
 
         gen.writeln(f"{start_pos} = state.pos")
         gen.writeln(f"{tmp_pairs}: list[Pair] = []")
+        gen.writeln(f"{item_pairs}: list[Pair] = []")
         gen.writeln(f"{count_var} = 0")
 
         gen.writeln("while True:")
         with gen.block():
             gen.writeln("state.checkpoint()")
-            self.expression.generate(gen, matched_var, tmp_pairs)
+            # Pairs of a failed iteration must not reach the accumulator.
+            self.expression.generate(gen, matched_var, item_pairs)
             gen.writeln(f"if {matched_var}:")
             with gen.block():
                 gen.writeln(f"{count_var} += 1")
                 gen.writeln("state.ok()")
+                gen.writeln(f"{tmp_pairs}.extend({item_pairs})")
+                gen.writeln(f"{item_pairs}.clear()")
                 # TODO: backtrack last trivia
                 gen.writeln(f"parse_trivia(state, {tmp_pairs})")
             gen.writeln("else:")
@@ -544,19 +549,24 @@ class RepeatMax(Expression):
         gen.writeln(f"# <RepeatMax n={self.number}>")
 
         tmp_pairs = gen.new_temp("children")
+        item_pairs = gen.new_temp("item_children")
         count_var = gen.new_temp("count")
 
         gen.writeln(f"{tmp_pairs}: list[Pair] = []")
+        gen.writeln(f"{item_pairs}: list[Pair] = []")
         gen.writeln(f"{count_var} = 0")
 
         gen.writeln("while True:")
         with gen.block():
             gen.writeln("state.checkpoint()")
-            self.expression.generate(gen, matched_var, tmp_pairs)
+            # Pairs of a failed iteration must not reach the accumulator.
+            self.expression.generate(gen, matched_var, item_pairs)
             gen.writeln(f"if {matched_var}:")
             with gen.block():
                 gen.writeln(f"{count_var} += 1")
                 gen.writeln("state.ok()")
+                gen.writeln(f"{tmp_pairs}.extend({item_pairs})")
+                gen.writeln(f"{item_pairs}.clear()")
                 # Stop if we've already reached the maximum
                 gen.writeln(f"if {count_var} >= {self.number}:")
                 with gen.block():
@@ -645,20 +655,25 @@ class RepeatMinMax(Expression):
 
         start_pos = gen.new_temp("start")
         tmp_pairs = gen.new_temp("children")
+        item_pairs = gen.new_temp("item_children")
         count_var = gen.new_temp("count")
 
         gen.writeln(f"{start_pos} = state.pos")
         gen.writeln(f"{tmp_pairs}: list[Pair] = []")
+        gen.writeln(f"{item_pairs}: list[Pair] = []")
         gen.writeln(f"{count_var} = 0")
 
         gen.writeln("while True:")
         with gen.block():
             gen.writeln("state.checkpoint()")
-            self.expression.generate(gen, matched_var, tmp_pairs)
+            # Pairs of a failed iteration must not reach the accumulator.
+            self.expression.generate(gen, matched_var, item_pairs)
             gen.writeln(f"if {matched_var}:")
             with gen.block():
                 gen.writeln(f"{count_var} += 1")
                 gen.writeln("state.ok()")
+                gen.writeln(f"{tmp_pairs}.extend({item_pairs})")
+                gen.writeln(f"{item_pairs}.clear()")
                 # Stop if we've already reached the maximum
                 gen.writeln(f"if {count_var} >= {self.max}:")
                 with gen.block():
